@@ -376,10 +376,13 @@ impl StringGenerator {
                         cur_state: state.clone(),
                     });
                 } else {
+                    // a cell that no layer covers is displayed as a default blank, not in the colours of the cell before
+                    let (new_state, sgr, sgr_tc) = self.get_color(buf, TextAttribute::default(), state);
+                    state = new_state;
                     line.push(CharCell {
                         ch: ' ',
-                        sgr: Vec::new(),
-                        sgr_tc: Vec::new(),
+                        sgr,
+                        sgr_tc,
                         font_page: *font_map.get(&ch.get_font_page()).unwrap(),
                         cur_state: state.clone(),
                     });
